@@ -179,6 +179,23 @@ def gen_plan(module, cfg, tag, extra_env=None, timeout=1800):
     return outp, n
 
 
+def gen_lazy_plan():
+    """all accessor-call sequences of the LazyVar state machine (spec -> implementation): TLC explores
+    LazyVar.tla without the VIEW and prints one PLANLINE per behaviour; returns (path, n, states)"""
+    md = os.path.join(WORK, "pl_lazy")
+    r = subprocess.run(tlc_cmd("LazyVar.tla", "cfg/LazyPlan.cfg", md, 1, "2g"), cwd=SPEC, capture_output=True, text=True)
+    shutil.rmtree(md, ignore_errors=True)
+    if "No error has been found" not in r.stdout:
+        raise ToolError("LazyVar plan generation failed:\n" + r.stdout[-2000:])
+    seqs = sorted(set(re.findall(r'"PLANLINE", "([CEV]+)"', r.stdout)))
+    m = None
+    for m in _mc_re.finditer(r.stdout):
+        pass
+    path = os.path.join(WORK, "plan_lazy.txt")
+    open(path, "w").write("\n".join(seqs) + "\n")
+    return path, len(seqs), (int(m.group(2)) if m else 0)
+
+
 # ----------------------------------------------------------------------------- trace validation
 KIND2PROP = {
     # Session
@@ -196,13 +213,20 @@ KIND2PROP = {
     "fdisplay": "C11", "fcmp": "C11", "fhash": "C11",
     "konst": "C17",
     "pair": "C12",
+    "gadget": "C13", "lazy_new": "C13", "lazy_op": "C13", "lazy_end": "C13",
+    "hint": "C14",
+    "shape": "C15", "pubinput": "C15", "groth16": "C15",
 }
 
 
 def signature(ev):
     """the call site of an event: kind + form / entry / predicate / constructor name (+ op, + suite-specific tag)"""
     return (ev.get("k"), ev.get("op", ""), ev.get("form", ""), ev.get("entry", ""), ev.get("pred", ""),
-            ev.get("name", ""), ev.get("ty", ""), ev.get("impl", ""), ev.get("field", ""), ev.get("tag", ""))
+            ev.get("name", ""), ev.get("ty", ""), ev.get("impl", ""), ev.get("field", ""), ev.get("tag", ""),
+            ev.get("g", ""), ev.get("mode", ""), ev.get("circuit", ""),
+            # hinted events are identified by input class and hint (one report per distinct failing hint)
+            ev.get("class", "") if ev.get("k") == "hint" else "", ev.get("hflag", ""),
+            tuple(ev.get("hy", [])) if ev.get("k") == "hint" else ())
 
 
 def split_segments(lines):
@@ -402,7 +426,7 @@ class Check:
                 continue
             k = e.get("k")
             self.event_kinds[k] = self.event_kinds.get(k, 0) + 1
-            for f in ("form", "entry", "pred", "name"):
+            for f in ("form", "entry", "pred", "name", "g", "circuit"):
                 if f in e:
                     self.forms.add("%s:%s:%s" % (which, k, e[f]))
         if lines and len(self.samples) < 6:
